@@ -16,9 +16,10 @@ structure SnapFacts (a : ActionIn) (s : Snapshot) (c : Cache) : Prop where
   watches : ∀ w ∈ s.watches, ∀ v, w.vid = some v → (w.obj, v) ∈ c
 
 theorem collect_facts {H : Heap} {a : ActionIn} {s : Snapshot} (h : collect H a = .ok s) :
-    ∃ c, SnapFacts a s c := by
-  unfold collect collectFrom at h
-  simp only at h
+    SnapFacts a s (collectFrom H a [] []).cache := by
+  unfold collect at h
+  unfold collectFrom at h ⊢
+  simp only at h ⊢
   have ff := collectFrames_facts H a.frames (AInv.nil a.limits)
   have fl := collectFrames_len H a.limits a.frames [] [] (by simp)
   split at h
@@ -29,7 +30,7 @@ theorem collect_facts {H : Heap} {a : ActionIn} {s : Snapshot} (h : collect H a 
     · simp at h
     · simp only [Outcome.ok.injEq] at h
       subst h
-      exact ⟨_, wf.inv, wl, fun vars hv x hx => ext_mem wf.ext (ff.refs vars hv x hx), wf.outs⟩
+      exact ⟨wf.inv, wl, fun vars hv x hx => ext_mem wf.ext (ff.refs vars hv x hx), wf.outs⟩
 
 /-! ### no failure on a benign heap -/
 
